@@ -7,6 +7,8 @@ mod p_c20;
 mod p_dom;
 mod p_get;
 mod p_num;
+mod p_ser;
+mod sval;
 mod dump;
 mod rng;
 mod tables;
@@ -27,6 +29,7 @@ fn main() {
                 "C02" => p_c02::run(&mut out, tier, seed),
                 "C09" => p_c09::run(&mut out, tier, seed),
                 "C20" => p_c20::run(&mut out, tier, seed),
+                "C05" => p_ser::run(&mut out, tier, seed),
                 "C07" => p_num::run_c07(&mut out, tier, seed),
                 "C08" => p_num::run_c08(&mut out, tier, seed),
                 "C03" => p_dom::run_c03(&mut out, tier, seed),
